@@ -99,8 +99,11 @@ func (s *CDCStreamer) CommitHook() bool {
 		stats.Add(cdcDroppedEvents, 1)
 		vhook.Trace(s.out, "cdcs.dropped", "idx", s.pending.Index)
 	}
+	// A log entry can commit more than once (a request of several statements
+	// without a transaction): later commits belong to the same index.
 	s.pending = &command.CDCIndexedEventGroup{
 		Events: make([]*command.CDCEvent, 0),
+		Index:  s.pending.Index,
 	}
 	return true
 }
